@@ -220,25 +220,21 @@ def stepOutState (r : Run) (l : Loc) (err : Bool) : Run :=
     if d.breakOnError && err then
       let (is, d) := match d.is with
         | none => (freshState l, { d with breakOnStart := false })
-        | some is => ({ is with pos := l, running := false }, d)
+        | some is => ({ is with pos := l }, d)
       if is.err then
-        -- the state is marked "not running" but the thread does not wait
+        -- an error is already recorded (it is passing through an outer call): no second stop, and the
+        -- thread is NOT marked as suspended
         { r with d := { d with is := some is } }
       else
-        park { r with d := { d with is := some { is with err := true } } } l
+        park { r with d := { d with is := some { is with err := true, running := false } } } l
     else
       match d.is with
       | none => { r with d := d }
       | some is => { r with d := { d with is := some (exitCmd { is with err := err } depth) } }
 
-/-- `RecordThreadFinished(tid)` -/
-def threadFinished (d : Dbg) : Dbg :=
-  match d.is with
-  | none => { d with depth := 0 }
-  | some is =>
-    -- a state that is running is kept (a step command carries over to the thread's next execution)
-    -- unless it only says "resumed: do not stop again on this line" — that ends with the execution
-    if is.running && is.cmd != .resume then d else { d with is := none, depth := 0 }
+/-- `RecordThreadFinished(tid)`: whatever command is pending (resume, a step, kill) belongs to the
+execution that has just finished; the thread's next execution starts without interrogation state -/
+def threadFinished (d : Dbg) : Dbg := { d with is := none, depth := 0 }
 
 /-- one element of the abstract visit trace of a thread -/
 inductive Ev where
@@ -303,7 +299,9 @@ structure State where
 inductive Event where
   /-- thread: `Lock; running = false; Unlock` (or publishing a fresh state with `running = false`) -/
   | mark
-  /-- thread: `VisitStepOutState` with an error already recorded: `running = false` without waiting -/
+  /-- thread: `running = false` published WITHOUT waiting. The current code has no such step any more
+  (fix "no suspended flag without wait"); the event stays in the system, so the handshake theorems
+  hold for a superset of the code's behaviours. -/
   | phantom
   /-- thread: `cond.L.Lock()` at the head of `waitForContinue` -/
   | tlock
